@@ -228,7 +228,8 @@ func checkC08(c *Ctx) *report.Result {
 			r.Fail("undecided", rule, name, where, strings.Join(ev.Undecided, "; "))
 			return
 		}
-		okOff := off != nil && off.HasBase && off.Base == ev.AddrSym && off.Off == -int64(base)
+		offv, offok := addrOffset(off, ev.AddrSym, ev.Lo, ev.Hi)
+		okOff := offok && offv == -int64(base)
 		if want == nil {
 			// bank must be the constant 0
 			cv, isc := constOf(bank)
